@@ -65,7 +65,7 @@ def tree_hash(extra=""):
 
 
 def build_harness(variant="A", sanitize="address", extra_cflags=(), exe_sources=("exec.c", "ops_table.c", "ops_codec.c"),
-                  exe_name="exec", threadpool="plain"):
+                  exe_name="exec", threadpool="plain", tools=("mtbl_verify", "mtbl_dump", "mtbl_info", "mtbl_merge")):
     """compile the library sources of /repo's working tree + harness into build/<variant>/<exe_name>.
     Returns (path, log).  Rebuilds whenever any source or header changed."""
     cfgdir = config_h_dir()
@@ -75,7 +75,7 @@ def build_harness(variant="A", sanitize="address", extra_cflags=(), exe_sources=
         cflags += ["-fsanitize=" + sanitize]
     outdir = os.path.join(BUILD, variant)
     stamp = os.path.join(outdir, exe_name + ".stamp")
-    want = tree_hash(" ".join(cflags) + "|" + ",".join(exe_sources) + "|" + threadpool)
+    want = tree_hash(" ".join(cflags) + "|" + ",".join(exe_sources) + "|" + threadpool + "|" + ",".join(tools))
     exe = os.path.join(outdir, exe_name)
     if os.path.exists(stamp) and os.path.exists(exe) and open(stamp).read() == want:
         return exe, "cached"
@@ -90,8 +90,12 @@ def build_harness(variant="A", sanitize="address", extra_cflags=(), exe_sources=
     for s in LIB_TU:
         jobs.append((os.path.join(HARNESS, s), []))
     jobs.append((os.path.join(HARNESS, "shims", "shims.c"), []))
+    nlib = len(jobs)
     for s in exe_sources:
         jobs.append((os.path.join(HARNESS, s), []))
+    ntool0 = len(jobs)
+    for t in tools:
+        jobs.append((os.path.join(REPO, "src", t + ".c"), []))
     objs, logs = [], []
     def cc(job):
         src, fl = job
@@ -105,9 +109,14 @@ def build_harness(variant="A", sanitize="address", extra_cflags=(), exe_sources=
                 logs.append(out)
     if logs:
         return None, "\n".join(logs)
-    r = sh(["gcc"] + (["-fsanitize=" + sanitize] if sanitize else []) + ["-o", exe] + objs + LIBS)
+    san = (["-fsanitize=" + sanitize] if sanitize else [])
+    r = sh(["gcc"] + san + ["-o", exe] + objs[:ntool0] + LIBS)
     if r.returncode != 0:
         return None, r.stdout
+    for ti, t in enumerate(tools):
+        r = sh(["gcc"] + san + ["-o", os.path.join(outdir, t), objs[ntool0 + ti]] + objs[:nlib] + LIBS)
+        if r.returncode != 0:
+            return None, r.stdout
     with open(stamp, "w") as f:
         f.write(want)
     return exe, "built"
@@ -305,7 +314,7 @@ def run_script(exe, lines, model_pre=(), tmpdir=None, real_env=None):
 
 
 REAL_ONLY = {"sys.info", "codec.sweep32", "crc.cpu", "cz.raw", "cz.direct", "cz.libinfo"}
-MODEL_ONLY = {"enc.raw", "enc.legal", "enc.file", "ctab", "cz.plan"}
+MODEL_ONLY = {"enc.raw", "enc.legal", "enc.file", "ctab", "cz.plan", "f.validate"}
 
 
 def subst(t, var):
